@@ -112,8 +112,10 @@ def gen_db(rng, isa):
             regk = [k for k in kinds if k not in ("mem", "imm")]
             if len(kinds) >= 2 and len(regk) == len(kinds) and len(set(kinds)) == 1 and rng.random() < 0.35:
                 idiom = True
+        # split: the model has no entry for the memory form, only for the register form -- OSACA then composes register form +
+        # load/store data, and a reading memory operand gets a separate load node (the load stage of critical paths)
         forms.append({"name": names[fi], "kinds": kinds, "roles": roles, "hidden": hidden, "idiom": idiom,
-                      "lat": rng.choice(LATS)})
+                      "lat": rng.choice(LATS), "split": "mem" in kinds and rng.random() < 0.5})
     B = lambda b: "true" if b else "false"
     isa_y = ["osaca_version: 0.3.4", "isa: \"%s\"" % isa,
              "instruction_forms:" + ("" if any(f["roles"] is not None for f in forms) else " []")]
@@ -145,6 +147,8 @@ def gen_db(rng, isa):
         arch_y.append("  - name: %s" % f["name"])
         arch_y.append("    operands:" + (" []" if not f["kinds"] else ""))
         for k in f["kinds"]:
+            if k == "mem" and f.get("split"):
+                k = "gpr" if isa == "x86" else "x"
             arch_y.append("      - " + arch_operand(k, isa))
         arch_y.append("    latency: %s" % f["lat"])
         arch_y.append("    throughput: 1.0")
